@@ -451,4 +451,12 @@ def r11_8(ctx):
         ctx.ob("R11.8", f"multi-path:{name}:missing-key-is-not-an-error", "GetUnknownKeyInObject" not in own, g.loc(), "a key that the object does not hold leaves its slot empty (no GetUnknownKeyInObject)")
 
 
-RULES = [("R11.1", r11_1), ("R11.2", r11_2), ("R11.3", r11_3), ("R11.4", r11_4), ("R11.5", r11_5), ("R11.6", r11_6), ("R11.7", r11_7), ("R11.8", r11_8)]
+def r11_s(ctx):
+    """the remaining-count that lets the multi-path walk stop early is decremented only when a slot is really filled, by
+    what was filled (shared with C01: R01.10) - counted before the descent, the count reaches zero inside a target
+    container and its slot gets a truncated span"""
+    from . import c01
+    ctx.include(c01.r01_10, "R11.S")
+
+
+RULES = [("R11.1", r11_1), ("R11.2", r11_2), ("R11.3", r11_3), ("R11.4", r11_4), ("R11.5", r11_5), ("R11.6", r11_6), ("R11.7", r11_7), ("R11.8", r11_8), ("R11.S", r11_s)]
